@@ -4,7 +4,7 @@ From Coq Require Import ZArith List Bool.
 From RV.Model Require Import Base Word GcdMatrix.
 From RV.Model Require Gcd.
 From RV.Run Require Import RunC12.
-From RV.Proofs Require PfGcdUint PfGcd PfGcdMatrix PfGcdInv PfC12 PfC12Closed.
+From RV.Proofs Require PfGcdUint PfGcd PfGcdMatrix PfGcdInv PfGcdExact PfC12 PfC12Closed.
 Import ListNotations.
 Local Open Scope Z_scope.
 
@@ -67,6 +67,7 @@ Check C12_gcd : forall bits a b,
   Gcd.gcd bits a b = Val (uint_of bits (Z.gcd (eval a) (eval b))).
 Print Assumptions C12_gcd.
 
+(* the Bezout identity of the property (modulo 2^BITS) ... *)
 Theorem C12_gcd_extended : forall bits a b,
   0 <= bits -> canon bits a -> canon bits b ->
   exists g x y sign, Gcd.gcd_extended bits a b = Val (g, x, y, sign) /\
@@ -86,6 +87,28 @@ Check C12_gcd_extended : forall bits a b,
     (if sign then eval a * eval x - eval b * eval y else eval b * eval y - eval a * eval x)
       mod 2 ^ bits = Z.gcd (eval a) (eval b) mod 2 ^ bits.
 Print Assumptions C12_gcd_extended.
+
+(* ... and the stronger fact: with x, y read as plain unsigned integers the identity is exact
+   over Z (this pins the `even` bookkeeping, invisible modulo 2^BITS) *)
+Theorem C12_gcd_extended_exact : forall bits a b,
+  0 <= bits -> canon bits a -> canon bits b ->
+  exists g x y sign, Gcd.gcd_extended bits a b = Val (g, x, y, sign) /\
+    g = uint_of bits (Z.gcd (eval a) (eval b)) /\ canon bits x /\ canon bits y /\
+    (if sign then eval a * eval x - eval b * eval y else eval b * eval y - eval a * eval x)
+      = Z.gcd (eval a) (eval b).
+Proof.
+  intros bits a b H Ha Hb.
+  destruct (PfGcdExact.gcd_extended_exact PfC12Closed.DivKernelOK_holds bits a b H Ha Hb)
+    as ([[[g x] y] sign] & E & Hok).
+  exists g, x, y, sign. split; [exact E | exact Hok].
+Qed.
+Check C12_gcd_extended_exact : forall bits a b,
+  0 <= bits -> canon bits a -> canon bits b ->
+  exists g x y sign, Gcd.gcd_extended bits a b = Val (g, x, y, sign) /\
+    g = uint_of bits (Z.gcd (eval a) (eval b)) /\ canon bits x /\ canon bits y /\
+    (if sign then eval a * eval x - eval b * eval y else eval b * eval y - eval a * eval x)
+      = Z.gcd (eval a) (eval b).
+Print Assumptions C12_gcd_extended_exact.
 
 Theorem C12_inv_mod : forall bits n m,
   0 <= bits -> canon bits n -> canon bits m ->
